@@ -22,6 +22,11 @@ HO_WRAPPERS = re.compile(
     r"std::result::Result::<T, E>::(map|map_err|and_then|unwrap_or_else|or_else|map_or|map_or_else))$")
 CACHE_WRITERS = {"insert", "remove", "clear", "entry", "get_mut", "retain", "extend", "drain", "remove_entry", "try_insert",
                  "iter_mut", "values_mut"}
+# the wrappers that run their closure argument on EVERY normal path (not Option::map & co.): used for the summaries of
+# local higher-order helpers (`fn with_bundler(action) { BUNDLER.with(|cell| action(..)) }`, benign b96)
+MUST_CALL_WRAPPERS = re.compile(
+    r"^(std::thread::LocalKey::<T>::(with|with_borrow|with_borrow_mut)|(better_)?scoped_tls::ScopedKey::<T>::set)$")
+FN_CALL = re.compile(r"^std::ops::(FnOnce::call_once|FnMut::call_mut|Fn::call)$")
 
 
 def is_cache_call(call):
@@ -38,6 +43,7 @@ class Must:
     def __init__(self, F):
         self.F = F
         self.memo = {}
+        self.imemo = {}
 
     def closure_of_operand(self, flow, op):
         l = op_local(op)
@@ -65,12 +71,77 @@ class Must:
                 if all(self.must(g) for g in c.local_target):
                     out[c.bb] = "call %s" % c.best
                     continue
+                # a local higher-order helper (benign b96: `with_bundler(|bundler| bundler.store_or_evict(..))`): the call
+                # is a P event when the closure handed over is one and the helper invokes that parameter on every normal path
+                for j, a in enumerate(c.term["args"]):
+                    g = self.closure_of_operand(flow, a)
+                    if g and self.must(g) and all(self.invokes(t, ("param", j + 1)) for t in c.local_target):
+                        out[c.bb] = "%s(closure %s), which calls its argument on every normal path" % (c.best, g)
             if HO_WRAPPERS.match(c.path or ""):
                 for a in c.term["args"]:
                     g = self.closure_of_operand(flow, a)
                     if g and self.must(g):
                         out[c.bb] = "%s(closure %s)" % (c.path, g)
         return flow, out
+
+    def callable_token(self, flow, op):
+        """the callable an operand stands for, when it is exactly (a move / copy / reborrow of) a parameter of the
+        function -> ("param", local) or a capture of the closure -> ("upvar", index); None for anything else (a value
+        chosen between two callables, a field of something, a call result)"""
+        pl = op_place(op)
+        if pl is None:
+            return None
+        projs = [p for p in pl["p"] if p != "*"]
+        if flow.fn.kind == "Closure" and pl["l"] == 1 and len(projs) == 1 and projs[0].startswith("f:#"):
+            return ("upvar", int(projs[0][3:]))
+        if projs:
+            return None
+        l = pl["l"]
+        defs = flow.defs_of(l)
+        if not defs:
+            return ("param", l) if 1 <= l <= flow.mir["arg_count"] else None
+        if len(defs) != 1:
+            return None
+        rv = defs[0][1].get("rv")
+        if rv and rv["k"] in ("Use", "Cast"):
+            return self.callable_token(flow, rv["op"])
+        if rv and rv["k"] in ("Ref", "CopyForDeref"):
+            return self.callable_token(flow, {"k": "copy", "place": rv["place"]})
+        return None
+
+    def invokes(self, g, tok):
+        """must-call summary of a local function / closure: on every normal path it calls the callable `tok` (one of its
+        parameters / captures) - directly (FnOnce::call_once ..), inside a closure it hands to a wrapper that certainly
+        runs it (LocalKey::with, ScopedKey::set), or by passing it on to a local function with such a summary"""
+        key = (g, tok)
+        if key in self.imemo:
+            return self.imemo[key]
+        self.imemo[key] = False  # cycles: assume no
+        f = self.F.fns.get(g)
+        if f is None or not f.mir:
+            return False
+        flow = FnFlow(f)
+        pb = set()
+        for c in f.calls:
+            args = c.term["args"]
+            if FN_CALL.match(c.path or "") and args and self.callable_token(flow, args[0]) == tok:
+                pb.add(c.bb)
+            elif MUST_CALL_WRAPPERS.match(c.path or ""):
+                for a in args:
+                    l = op_local(a)
+                    for _, d in (flow.defs_of(l) if l is not None else ()):
+                        rv = d.get("rv")
+                        if rv and rv["k"] == "Aggregate" and rv.get("agg") == "Closure" and len(flow.defs_of(l)) == 1:
+                            cg = self.F._callee_gid(f.crate, rv["closure"])
+                            if any(self.callable_token(flow, o) == tok and self.invokes(cg, ("upvar", i)) for i, o in enumerate(rv["ops"])):
+                                pb.add(c.bb)
+            elif c.local_target:
+                for j, a in enumerate(args):
+                    if self.callable_token(flow, a) == tok and all(self.invokes(t, ("param", j + 1)) for t in c.local_target):
+                        pb.add(c.bb)
+        r = must_pass(flow, pb)
+        self.imemo[key] = r
+        return r
 
     def must(self, g):
         if g in self.memo:
@@ -91,8 +162,10 @@ def run(cx, rep):
     rep.explanation = (
         "Must/may analyses on the MIR of beff_wasm (which type-checks on the host although it cannot run natively): "
         "(1) must-pass-through: on every normal path of the exported update function a call that inserts into or "
-        "removes from the module cache is passed (interprocedural through closures handed to LocalKey::with / "
-        "ScopedKey::set); (2) who-may-write + provenance of the cached value by backward data-dependence; "
+        "removes from the module cache is passed (interprocedural through local helper functions / methods, closures "
+        "handed to LocalKey::with / ScopedKey::set, and closures handed to a local higher-order helper that calls its "
+        "argument on every normal path), with the key mapped back through helper parameters and closure captures to "
+        "the export's file-name parameter; (2) who-may-write + provenance of the cached value by backward data-dependence; "
         "(3) closed inventory of process-lifetime state on both sides of the wasm boundary; (4) may-reach of host "
         "queries from the function whose result is cached. Decides these structural necessary conditions for "
         "history-independence; histories themselves are not executed.")
@@ -159,6 +232,13 @@ def run(cx, rep):
     for g, n in exports.items():
         if n != upd_export:
             other_reach |= F.reachable([g], foreign_callbacks=False)
+    # the user-written export the macro-generated shim wraps: its first parameter is the updated file's name.  A write
+    # that sits in a helper below it (benign b96: the method `Bundler::store_or_evict(&mut self, file_name, parsed)`,
+    # called from a closure) is judged by mapping the helper's key parameter back to its callers' arguments
+    entry = {t for c in F.fns[shim].calls for t in (c.local_target or []) if F.fns[t].crate == WASM and F.fns[t].name == upd_export}
+    if len(entry) != 1:
+        rep.anchor_missing("C14.1", "user function wrapped by the export shim %s" % shim, str(sorted(entry)))
+        return
     nkeys = 0
     for g in sorted(upd_reach - other_reach):
         f = F.fns[g]
@@ -168,7 +248,7 @@ def run(cx, rep):
                 nkeys += 1
                 flow = FnFlow(f)
                 org = Origins(flow).of_operand(c.term["args"][1])
-                okk = key_from_param(F, f, org, 1)
+                okk = key_from_param(F, f, org, 1, entry=entry, scope=upd_reach)
                 rep.ob("C14.1", "%s/key-is-updated-file" % upd_export, okk,
                        "cache %s in %s uses a key that does not derive from the updated file's name parameter" % (m, g),
                        "%s:%s" % (c.file, c.line), sample={"site": "%s:%s" % (c.file, c.line), "key_origins": sorted(map(str, org))[:8]})
@@ -668,11 +748,25 @@ def strip_g(s_):
     return "".join(out).replace("::::", "::")
 
 
-def key_from_param(F, f, org, param_no, depth=0):
-    """does an origin set reach parameter `param_no` of the export's inner function, through closure captures?"""
-    if ("param", param_no) in org and f.kind != "Closure":
-        return True
-    if f.kind != "Closure" or depth > 4:
+def key_from_param(F, f, org, param_no, depth=0, entry=None, scope=None):
+    """does an origin set reach parameter `param_no` of the export function (`entry`: set of ids), through closure
+    captures and through the parameters of the local helpers between the export and the cache write?  In a helper every
+    call site on the update path (`scope`) must hand over a key that does."""
+    if f.kind != "Closure":
+        ps = sorted(o[1] for o in org if o[0] == "param")
+        if entry is None or f.id in entry:
+            return param_no in ps
+        if depth > 6 or not ps:
+            return False
+        sites = [(p, c) for p in F.fns.values() if p.mir and (scope is None or p.id in scope)
+                 for c in p.calls if f.id in (c.local_target or [])]
+        for p, c in sites:
+            O = Origins(FnFlow(p))
+            args = c.term["args"]
+            if not any(k - 1 < len(args) and key_from_param(F, p, O.of_operand(args[k - 1]), param_no, depth + 1, entry, scope) for k in ps):
+                return False
+        return bool(sites)
+    if depth > 6:
         return False
     # map upvars to the operands of the closure aggregate in the parent
     ups = [o[1] for o in org if o[0] == "upvar"]
@@ -687,7 +781,7 @@ def key_from_param(F, f, org, param_no, depth=0):
                     for i in ups:
                         if i < len(st["rv"]["ops"]):
                             po = O.of_operand(st["rv"]["ops"][i])
-                            if key_from_param(F, p, po, param_no, depth + 1):
+                            if key_from_param(F, p, po, param_no, depth + 1, entry, scope):
                                 return True
     return False
 
